@@ -14,6 +14,8 @@ NEUTRALS = [{'name': 'bound check as chained comparison', 'file': 'partitura/uti
 
 # changes made by sub-agents that were given only the property text (see /verif/seeded/<id>/): each must stay reported
 SEEDED = [
+    {'name': 'seeded change C12-r5b', 'seed': 'C12-r5b', 'expect': '|RET|'},
+    {'name': 'seeded change C12-r5a', 'seed': 'C12-r5a', 'expect': '|PITCH-linear|'},
     {'name': 'seeded change C12-r4b', 'seed': 'C12-r4b', 'expect': '|ACC-repeat|'},
     {'name': 'seeded change C12-r4a', 'seed': 'C12-r4a', 'expect': '|PARAM-used|'},
     {'name': 'seeded change C12-r3', 'seed': 'C12-r3', 'expect': '|F3|'},
